@@ -31,8 +31,12 @@ class Block:
         for w, v in zip(self.wires, snap[:n]): w.put(v)
         for r, v in zip(self.regs, snap[n:]): r.value = v
 
+    sideband, noise = (), None
+
     def step(self, i):
         for w, v in zip(self.inw, i): w.put(v)
+        if self.noise is not None:          # undriven optional signals of the stream carry arbitrary values: the sink must ignore them
+            for w in self.sideband: w.put(self.noise.getrandbits(w.getWidth()))
         with quiet():
             self.sim.clk(1)
         return self.obs()
@@ -47,17 +51,20 @@ class Block:
 class A2R(Block):
     """inputs (start, reset, done, tvalid, tdata); outputs [q, loaded, active, tready]"""
     name = 'Axi2Reg'
-    def __init__(self, W, DW):
+    def __init__(self, W, DW, opts=None):
         py4hw, AXIS, vw = _imports()
-        self.W, self.DW = W, DW
+        self.W, self.DW, self.opts = W, DW, dict(opts or {})
         with quiet():
             hw = py4hw.HWSystem()
             st, rs, dn = hw.wire('ap_start', 1), hw.wire('ap_reset', 1), hw.wire('ap_done', 1)
             q, ld, ac = hw.wire('q', W), hw.wire('loaded', 1), hw.wire('active', 1)
-            s = AXIS(hw, 'stream', dw=DW)
+            s = AXIS(hw, 'stream', dw=DW, **self.opts)
             dut = vw.Axi2Reg(hw, 'axi2reg', st, rs, dn, s, q, ld, ac)
+        self.stream = s
         self.inw = [st, rs, dn, s.tvalid, s.tdata]
         self.outw = [q, ld, ac, s.tready]
+        # optional sideband signals of the interface: inputs of the sink, to be ignored by it
+        self.sideband = [w for n, w in s.sourceToSink if n not in ('tvalid', 'tdata')]
         self.finish(hw, dut, ['reg_data', 'loaded', 'active'])
 
     def model_snapshot(self):
@@ -67,16 +74,18 @@ class A2R(Block):
 class R2A(Block):
     """inputs (start, reset, done, load_outs, tready, reg_in); outputs [tvalid, tdata, tlast, tkeep, sent, active]"""
     name = 'Reg2Axi'
-    def __init__(self, W, DW):
+    def __init__(self, W, DW, opts=None):
         py4hw, AXIS, vw = _imports()
         self.W, self.DW, self.KW = W, DW, DW // 8
+        self.opts = dict(opts or {}); self.opts.update(has_tlast=True, has_tkeep=True)      # Reg2Axi drives tlast and tkeep
         with quiet():
             hw = py4hw.HWSystem()
             st, rs, dn = hw.wire('ap_start', 1), hw.wire('ap_reset', 1), hw.wire('ap_done', 1)
             lo, ri = hw.wire('load_outs', 1), hw.wire('reg_in', W)
             se, ac = hw.wire('sent', 1), hw.wire('active', 1)
-            s = AXIS(hw, 'stream', dw=DW, has_tlast=True, has_tkeep=True)
+            s = AXIS(hw, 'stream', dw=DW, **self.opts)
             dut = vw.Reg2Axi(hw, 'reg2axi', st, rs, dn, lo, ri, s, se, ac)
+        self.stream = s
         self.inw = [st, rs, dn, lo, s.tready, ri]
         self.outw = [s.tvalid, s.tdata, s.tlast, s.tkeep, se, ac]
         self.finish(hw, dut, ['tvalid', 'tdata_ext', 'sent', 'active'])
@@ -129,6 +138,17 @@ class VKF(Block):
         self.wires = netlist.all_wires(hw)
         self.regs = []
         self.fsm = dut
+
+
+# ------------------------------------------------------------------ interface configurations
+def draw_opts(rng, W, sink):
+    """optional signals of AXI4StreamInterface (TLAST/TKEEP/TSTRB flags, TID/TDEST/TUSER widths), some narrower than the payload"""
+    o = {}
+    for flag in ('has_tlast', 'has_tkeep', 'has_tstrb'):
+        if rng.random() < 0.5: o[flag] = True
+    for name in ('iw', 'rw', 'uw'):
+        if rng.random() < 0.5: o[name] = rng.choice([1, 2, 3, 4, 8, 16])
+    return o
 
 
 # ------------------------------------------------------------------ schedules
